@@ -5,6 +5,8 @@
 package main
 
 import (
+	"bytes"
+	"encoding/binary"
 	"encoding/hex"
 	"fmt"
 	"math"
@@ -16,6 +18,7 @@ import (
 
 	"github.com/openGemini/openGemini/engine/executor"
 	"github.com/openGemini/openGemini/engine/hybridqp"
+	"github.com/openGemini/openGemini/lib/bufferpool"
 	"github.com/openGemini/openGemini/lib/util/lifted/influx/influxql"
 	"github.com/openGemini/openGemini/lib/util/lifted/influx/query"
 	internal "github.com/openGemini/openGemini/lib/util/lifted/influx/query/proto"
@@ -437,6 +440,27 @@ func guard(c *Case, f func()) {
 var stuck *Case
 var lastInput J // the object handed to the codec last (reported when the codec hangs)
 
+// intact: serialised bytes that a request still holds must not change while other values are serialised
+// (INTERLEAVED round trips: a request keeps its bytes until it is written to the wire, and again for retries)
+func intact(c *Case, what string, held, snap []byte) bool {
+	if !bytes.Equal(held, snap) {
+		c.Oracle = "the " + what + " bytes held for an earlier value changed while later values were marshalled (" +
+			fmt.Sprintf("%d of %d bytes differ", diffBytes(held, snap), len(snap)) + ")"
+		return false
+	}
+	return true
+}
+
+func diffBytes(a, b []byte) int {
+	n := 0
+	for i := range b {
+		if i >= len(a) || a[i] != b[i] {
+			n++
+		}
+	}
+	return n
+}
+
 func planCase(g *G) Case {
 	c := Case{Kind: "plan"}
 	guard(&c, func() {
@@ -458,6 +482,73 @@ func planCase(g *G) Case {
 			return
 		}
 		c.Lost = lostFields(root, back)
+
+		// the wire form (MarshalQueryNode: |schema size|schema|plan|, written into a pooled buffer), interleaved:
+		// earlier queries have finished and handed their buffers back (RPCReaderTransform.Work), this query's bytes stay
+		// with its request while the plans of other queries are marshalled, and only then the store decodes them
+		for i := 0; i < 3; i++ {
+			if b, err := executor.MarshalQueryNode(g.genPlan(g.newSchema())); err == nil {
+				bufferpool.Put(b)
+			}
+		}
+		wire, err := executor.MarshalQueryNode(root)
+		if err != nil {
+			c.Oracle = "MarshalQueryNode error: " + err.Error()
+			return
+		}
+		snap := append([]byte(nil), wire...)
+		inflight := [][]byte{}
+		for i := 0; i < g.r.Range(1, 3); i++ {
+			if b, err := executor.MarshalQueryNode(g.genPlan(g.newSchema())); err == nil {
+				inflight = append(inflight, b)
+			}
+		}
+		if !intact(&c, "plan (MarshalQueryNode)", wire, snap) {
+			return
+		}
+		if len(wire) < 8 || uint64(len(wire)-8) < binary.BigEndian.Uint64(wire[:8]) {
+			c.Oracle = "wire form shorter than its schema size says"
+			return
+		}
+		ssz := int(binary.BigEndian.Uint64(wire[:8]))
+		pb := &internal.QuerySchema{}
+		if err := proto.Unmarshal(wire[8:8+ssz], pb); err != nil {
+			c.Oracle = "wire schema: " + err.Error()
+			return
+		}
+		sback, err := query.DecodeQuerySchema(pb, schema.Options())
+		if err != nil {
+			c.Oracle = "wire schema decode: " + err.Error()
+			return
+		}
+		if a, b := schema.GetQueryFields().String(), sback.GetQueryFields().String(); a != b {
+			c.Oracle = "the store receives another select list: " + b
+			return
+		}
+		if len(wire) > 8+ssz {
+			wback, err := executor.UnmarshalBinary(wire[8+ssz:], schema)
+			if err != nil {
+				c.Oracle = "wire plan unmarshal error: " + err.Error()
+				return
+			}
+			if s := planShape(wback); s != c.SrcText {
+				c.Oracle = "plan shape differs on the wire: " + s
+				return
+			}
+			for _, f := range lostFields(root, wback) {
+				found := false
+				for _, x := range c.Lost {
+					found = found || x == f
+				}
+				if !found {
+					c.Lost = append(c.Lost, f)
+				}
+			}
+		}
+		bufferpool.Put(wire)
+		for _, b := range inflight {
+			bufferpool.Put(b)
+		}
 	})
 	return c
 }
@@ -548,6 +639,14 @@ func rpcCase(g *G) Case {
 		buf, err := a.Marshal(nil)
 		if err != nil {
 			c.Oracle = "marshal error: " + err.Error()
+			return
+		}
+		// interleaved: other messages are marshalled before this one is read
+		snap := append([]byte(nil), buf...)
+		for i := 0; i < 2; i++ {
+			_, _ = g.remoteQuery().Marshal(nil)
+		}
+		if !intact(&c, "message", buf, snap) {
 			return
 		}
 		if err := b.Unmarshal(buf); err != nil {
@@ -782,6 +881,13 @@ func chunkCase(g *G) Case {
 		n := g.r.Range(1, 3) // multi-chunk: several chunks of one stream
 		lost := map[string]bool{}
 		shapes := []string{}
+		// interleaved: all chunks of the stream are marshalled first (their frames wait in the send queue), then each
+		// frame is checked to be what it was and decoded
+		type frame struct {
+			ch        *executor.ChunkImpl
+			buf, snap []byte
+		}
+		frames := []frame{}
 		for i := 0; i < n; i++ {
 			ch := g.genChunk()
 			shapes = append(shapes, fmt.Sprintf("%drows/%dcols/%dtags/%ddims", ch.Len(), len(ch.Columns()), len(ch.Tags()), len(ch.Dims())))
@@ -794,7 +900,14 @@ func chunkCase(g *G) Case {
 				c.Oracle = fmt.Sprintf("Size() %d differs from the marshalled length %d", ch.Size(), len(buf))
 				return
 			}
-			lastInput = J{"obj": dumpChunk(ch), "bytes": hex.EncodeToString(buf)}
+			frames = append(frames, frame{ch, buf, append([]byte(nil), buf...)})
+		}
+		for _, fr := range frames {
+			ch, buf := fr.ch, fr.buf
+			lastInput = J{"obj": dumpChunk(ch), "bytes": hex.EncodeToString(fr.snap)}
+			if !intact(&c, "chunk frame", buf, fr.snap) {
+				return
+			}
 			back := &executor.ChunkImpl{}
 			if err := back.Unmarshal(buf); err != nil {
 				c.Oracle = "unmarshal error: " + err.Error()
